@@ -4,6 +4,7 @@ import (
 	"fmt"
 	"grog/internal/config"
 	"grog/internal/dag"
+	"grog/internal/label"
 	"grog/internal/model"
 	"strings"
 )
@@ -25,6 +26,9 @@ func (s *Selector) SelectTargetsForBuild(
 ) (int, int, error) {
 
 	platformSkipped := 0
+	// Nodes whose ancestors have already been selected (shared across all matched nodes)
+	// so that every node is only walked once, no matter how many paths lead to it.
+	visited := make(map[label.TargetLabel]bool)
 	for _, node := range graph.GetNodes() {
 		// Match pattern and test flag
 		if s.nodeMatchesFilters(node) {
@@ -34,7 +38,11 @@ func (s *Selector) SelectTargetsForBuild(
 			}
 
 			node.Select()
-			if err := s.selectAllAncestorsForBuild(graph, []string{node.GetLabel().String()}, node); err != nil {
+			if visited[node.GetLabel()] {
+				continue // Already selected together with all of its ancestors
+			}
+			visited[node.GetLabel()] = true
+			if err := s.selectAllAncestorsForBuild(graph, visited, []string{node.GetLabel().String()}, node); err != nil {
 				return 0, 0, err
 			}
 		}
@@ -52,13 +60,18 @@ func (s *Selector) SelectTargetsForBuild(
 }
 
 // selectAllAncestorsForBuild recursively selects all ancestors of the given node
-// and returns the number of selected targets.
+// and returns an error if one of them does not match the platform.
+// Ancestors that are already in the visited set are skipped.
 func (s *Selector) selectAllAncestorsForBuild(
 	graph *dag.DirectedTargetGraph,
+	visited map[label.TargetLabel]bool,
 	depChain []string,
 	node model.BuildNode,
 ) error {
 	for _, ancestor := range graph.GetDependencies(node) {
+		if visited[ancestor.GetLabel()] {
+			continue
+		}
 		nextChain := append(append([]string{}, depChain...), ancestor.GetLabel().String())
 		if !nodeMatchesPlatform(ancestor) {
 			depChainStr := strings.Join(nextChain[1:], " -> ")
@@ -66,8 +79,9 @@ func (s *Selector) selectAllAncestorsForBuild(
 				depChain[0], depChainStr, config.Global.GetPlatform())
 		}
 
+		visited[ancestor.GetLabel()] = true
 		ancestor.Select()
-		if err := s.selectAllAncestorsForBuild(graph, nextChain, ancestor); err != nil {
+		if err := s.selectAllAncestorsForBuild(graph, visited, nextChain, ancestor); err != nil {
 			return err
 		}
 	}
